@@ -38,6 +38,7 @@ EXTRA_MODES = {
 }
 OP_ENTRY = {
     "xml_write_path": ("NeuroMLWriter.write", "path"), "xml_write_handle": ("NeuroMLWriter.write", "handle"),
+    "xml_write_path_opt": ("NeuroMLWriter.write", "path"), "xml_write_handle_opt": ("NeuroMLWriter.write", "handle"),
     "h5_write_embed": ("NeuroMLHdf5Writer.write", "embed"), "h5_write_noembed": ("NeuroMLHdf5Writer.write", "noembed"),
     "am_write_morph": ("ArrayMorphWriter.write", "morph"), "am_write_doc": ("ArrayMorphWriter.write", "doc"),
     "am_load": ("ArrayMorphLoader.load", ""), "h5_parse": ("NeuroMLHdf5Parser.parse", ""),
@@ -151,6 +152,13 @@ def gen_ops(ck):
     ops.append({"op": "h5_write_embed", "doc": gen_doc(rng, nets=2), "faults": [], "must_raise": True})
     # the known finding: default ids are written into the caller's document
     ops.append({"op": "am_write_doc", "doc": {"id": "a0", "am_cells": [{"id": None, "n": 3, "mid": None}]}, "faults": nf})
+    # a document in the optimized representation (array backed lists with their own iteration cursor), written as XML
+    d_opt = {"id": "o1", "iaf": 1, "syn": 1, "pg": 1, "embed": False,
+             "networks": [{"id": "n", "pops": [{"id": "p0", "instances": 6}, {"id": "p1", "instances": 3}],
+                           "projs": [{"id": "pr", "pre": "p0", "post": "p1", "conns": 4}],
+                           "ils": [{"id": "il", "pop": "p0", "inputs": 3}]}]}
+    ops.append({"op": "xml_write_path_opt", "doc": d_opt, "faults": ck.n(30, "all")})
+    ops.append({"op": "xml_write_handle_opt", "doc": dict(d_opt, embed=True), "faults": ck.n(12, "all")})
     # --- generated
     for i in range(ck.n(3, 14)):
         d = gen_doc(rng)
@@ -158,6 +166,8 @@ def gen_ops(ck):
         ops.append({"op": "h5_write_noembed", "doc": d, "faults": nf})
         ops.append({"op": "xml_write_path", "doc": d, "faults": nf, "kinds": ["OSError", "AttributeError"]})
         ops.append({"op": "xml_write_handle", "doc": d, "faults": nf, "kinds": ["OSError", "AttributeError"]})
+        if i % 2 == 0:
+            ops.append({"op": "xml_write_path_opt", "doc": dict(d, embed=rng.random() < 0.5), "faults": nf})
         ops.append({"op": rng.choice(["h5_parse", "h5_parse_opt"]), "doc": dict(d, embed=rng.random() < 0.7), "faults": nf})
         ops.append({"op": rng.choice(["h5_load", "h5_load_opt"]), "doc": dict(d, embed=True), "faults": nf})
         ops.append({"op": "file_h5", "doc": dict(d, embed=True), "faults": ck.n(6, 30)})
@@ -282,6 +292,9 @@ def run(ck):
             allmodes.append((e["name"], mname))
     gen.append("Definition entries : list (string * list (string * bool) * cmd) :=\n  %s." % coq_list(
         ["(%s, mode_%s_%s, skel_%s)" % (coq_str(n + ":" + m), ident(n), ident(m), ident(n)) for n, m in allmodes]))
+    gen.append("Definition iter_state : list iter_row :=\n  %s." % coq_list(
+        ["(%s, %s, %s)" % (coq_str(r["cls"]), coq_list([coq_str(x) for x in r["modified"]]), coq_list([coq_str(x) for x in r["reset"]]))
+         for r in d.get("iter_state", [])]))
     g = ck.gen_v("Gen_C08.v", "\n".join(gen) + "\n")
     ok, out = ck.coqc(g)
     ck.oblige("Gen_C08.v:compiles", ok, out[-1500:], kind="translate")
@@ -299,11 +312,17 @@ def run(ck):
             k, _ = ck.compile_obligations(ck.gen_v(nm, txt), kind="instance")
             iok = iok and k
         inst_ok[(n, m)] = iok
+    k, _ = ck.compile_obligations(ck.gen_v("Inst_C08_iter_state.v", HEADER + "From Run Require Import Gen_C08.\n"
+                                           "Lemma iter_state_ok : iter_ok iter_state = true.\nProof. vm_compute. reflexivity. Qed.\n"),
+                                  kind="instance")
+    inst_ok[("document iterators", "rewind")] = k
+    ck.extra["document_iterators"] = d.get("iter_state", [])
     missing = [n for n in d.get("expected", []) if n not in entries]
     all_ok = all(inst_ok.values()) and not missing and not d["untranslatable"]
     if all_ok:
         inst = ck.gen_v("Inst_C08.v", HEADER + "From LNML Require Import Proofs.ResourceP.\nFrom Run Require Import Gen_C08.\n"
                         "Lemma all_ok : forallb entry_ok entries = true.\nProof. vm_compute. reflexivity. Qed.\n"
+                        "Lemma iter_state_ok : iter_ok iter_state = true.\nProof. vm_compute. reflexivity. Qed.\n"
                         "Lemma all_present : map fst (map fst entries) = %s.\nProof. reflexivity. Qed.\n"
                         % coq_list([coq_str(n + ":" + m) for n, m in allmodes]))
         iok, _ = ck.compile_obligations(inst, kind="instance")
@@ -362,6 +381,9 @@ def run(ck):
                 prob.append(("failure-swallowed", "the call returned normally although %s raised" % fired))
             if fired and r["raised"] and r.get("retry_ok") is False:
                 prob.append(("retry-fails", r.get("retry_err", "")))
+            if fired and r.get("retry_same") is False:
+                prob.append(("retry-differs", "the retried call does not produce what a first call produces: %s"
+                             % json.dumps(r.get("retry_diff"))[:300]))
             if what == "dry" and o.get("must_raise") and not r["raised"]:
                 prob.append(("unholdable-construct-not-refused", "the document holds a construct this format cannot hold, "
                              "and the call returned normally"))
@@ -465,7 +487,7 @@ def replay(ck, data):
         for r in recs:
             r.pop("trace", None)
         print(json.dumps({"stored": {"input": inp, "observed": data.get("observed")}, "now": recs}, indent=1)[:6000])
-        bad = any(r and (r.get("leaked") or r.get("doc_changed") or r.get("retry_ok") is False
+        bad = any(r and (r.get("leaked") or r.get("doc_changed") or r.get("retry_ok") is False or r.get("retry_same") is False
                          or r.get("caller_handle_closed")) for r in recs)
         if str(data.get("key", "")).endswith("unholdable-construct-not-refused"):
             bad = bad or not recs[0].get("raised")
